@@ -281,10 +281,17 @@ def gen_scenario(rng, prof=None, force_selflock=None):
             # the output starts exactly at the speed at which the motor runs at its no-load speed (zero driving torque at D = 1)
             m_ = spec['motor']
             spd = Q('AngularSpeed', m_['w0']['v'] / nums['G'], m_['w0']['u'])
+    angle_pos = None
+    if rng.random() < p.get('p_angle_pos', 0.12) and qsi(spd) >= 0 and not any(load.get(k_) for k_ in ('C', 'P')):
+        # the initial position is an Angle object converted in place beforehand (sim/build.py apply_ic). Angle + AngularPosition
+        # refuses a negative sum (D10-angle, judged by C06 only), so the start is far enough from zero for any first step
+        pos = Q('AngularPosition', sig(max(qsi(pos), 400 * w_out * dt_si, 1e-3), 3), 'rad')
+        pos = reexpress(pos, rng.choice(SI.units('Angle')))
+        angle_pos = rng.choice(SI.units('Angle'))
     pwm = None
     if rng.random() < p['p_pwm_preset']:
         pwm = rng.choice([1, 0, -1, 0.5, -0.3, sig(rng.uniform(-1, 1), 3)])
-    spec['ic'] = {'pos': pos, 'speed': spd, 'pwm': pwm, 'numpy': rng.random() < p.get('p_numpy', 0.12)}
+    spec['ic'] = {'pos': pos, 'speed': spd, 'pwm': pwm, 'numpy': rng.random() < p.get('p_numpy', 0.12), 'angle_pos': angle_pos}
     if rng.random() < p.get('p_numpy', 0.12):
         load['numpy'] = True
     if rng.random() < p.get('p_reentrant', 0.08):
